@@ -6,6 +6,9 @@ TECH = "deterministic simulation with fault injection"
 NOTE_COMMON = ("Trusted base: the go/ast instrumenter (tools/instrument) and the sim packages (sim/simrt, simsync, simfs, simclock, simexec, simwire) reproduce the semantics of the constructs they replace; "
                "the oracle/reference model written in sim/engine; Go toolchain go1.26.8. Seeded search: a clean batch is evidence, not proof. ")
 CHECKS = {
+ "C15": dict(level="exploration", design="5.15",
+   text="Full-server simulation in which the iteration order of EVERY map range of the repository's code (58 rewritten range statements, plus sync.Map.Range) and the background schedule are simulator decisions: one generated world and one fixed request script per run are executed on V fresh servers (canonical order + sequential schedule vs seeded permutations + seeded schedules), every request twice; everything the client received at quiescent points must be byte-identical after canonical JSON. A dependence on map order is therefore found in two executions and replays exactly, instead of hoping the runtime's random order differs within 50 repetitions; on a mismatch the permutation is narrowed to the single range statements that matter and they are named in the report.",
+   note="Map ranges inside dependencies are not rewritten (only the repository's own code); semantic-token result ids are opaque and blanked."),
  "C14": dict(level="exploration", design="5.14",
    text="Full-server simulation over the wire with every goroutine the server starts (one per didOpen/didChange, one per initialized/didChangeConfiguration) as a simulator task, preempted at every lock, sync.Map operation, disk/clock/exec call and client call under 7 schedule policies, with the client answering workspace/configuration immediately, late, with an error, with [] or never, hledger found or not, and optional transport close. Invariants: no panic, no deadlock (cooperative locks model Go's writer preference), no livelock within the step budget. A second binary built with -race runs the same seeds with happens-before-invisible hand-offs, so two server goroutines are ordered for the detector only by the program's own synchronisation; reports are re-run alone, minimised and replayed by choice list. Oracle on sampled responses: equality with a FRESH sequential reference server in the same client-visible state (or, while analysis of the requesting state is still pending, with the cold or the lagging reference), and no marker of a superseded version of the requesting document.",
    note="Without a workspace the disk is frozen (no didSave) because the server then learns about other files only on re-analysis. Settings payloads are well-typed and equal up to cli.path/timeout so the effective settings are unambiguous (ordering of configuration replies is C19). Plain memory races between yield points are found only by the -race pass."),
